@@ -275,7 +275,7 @@ RetypeOf(x) == CASE Tag(x) = "num" -> <<"numstr", x[2]>>          \* 3 -> "3"
                  [] Tag(x) \in {"str", "loom", "numstr"} -> Num(7)
                  [] OTHER -> Str("retyped")                       \* object / array -> string
 AlterOf(key, x) ==
-   CASE key = "version" -> {Num(2), Num(4)}
+   CASE key = "version" -> {Num(2), Num(4), <<"frac", 3>>}        \* <<"frac", n>> is the number n + 0.5
      [] key = "ovni.part" -> {Str("other")}
      [] key = "ovni.finished" -> {Num(0), Num(2)}
      [] key = "ovni.tid" -> {Num(999)}
@@ -304,7 +304,7 @@ ReqCases(s, k, M) ==
    UNION {{Case(s, "req", k, n, "removed", None),
            Case(s, "req", k, n, "retyped", Num(7)),
            Case(s, "req", k, n, "altered", Str(BadVersion))} : n \in DOMAIN r}
-JsonCases(s, k) == {Case(s, "json", k, how, 0, None) : how \in {"truncated", "garbage", "empty", "array"}}
+JsonCases(s, k) == {Case(s, "json", k, how, 0, None) : how \in {"truncated", "garbage", "empty", "array", "trailing"}}   \* trailing: a complete object followed by garbage
 
 \* --- bytes of stream.obs
 TruncCases(s, k, st) == {Case(s, "trunc", k, c, 0, None) : c \in 0..(FileSize(st) - 1)}
